@@ -1192,6 +1192,13 @@ def remove_duplicate_functions(source: str, preserve: Collection[str]) -> str:
         if replacement.name in _names_never_substituted(root):
             continue  # The uses of the duplicates cannot be redirected to it, so they must stay
 
+        if any(
+            replacement.name in _spelled_names(node)
+            for node in ast.walk(root)
+            if not (isinstance(node, ast.Name) and isinstance(node.ctx, ast.Load))
+        ):
+            continue  # Where its name is bound to something else, e.g. a parameter, a use means that
+
         for node in funcdefs - preserved_nodes:
             delete.add(node)
             renamings[node.name] = replacement.name
